@@ -649,7 +649,8 @@ def _reason_of(body, t):
 
 def _is_compile_call(ctx, t):
     c = mir.callee(t) or ""
-    return mir.last_seg(c) == "compile" and c.startswith("compile::<impl ast::")
+    seg = mir.last_seg(c)
+    return (seg == "compile" or seg.startswith("compile_")) and c.startswith("compile::<impl ast::")
 
 
 def rule_p3(ctx):
